@@ -210,20 +210,29 @@ class GenOpts(object):
         self.__dict__.update(kw)
 
 
-def gen_case(ch, opts):
+def gen_case(ch, opts, fixed=None):
     """Build one message case from the choice sequence.  Raises Reject for draws that fall
-    outside the domain (ill-formed by the reference's rules)."""
+    outside the domain (ill-formed by the reference's rules).  `fixed` = (master version, local table or None,
+    descriptor list) pins the table selection and the template; only metadata and values are drawn."""
     versions = opts.versions or rtables.available_master_versions()
-    mv = ch.choice(versions)
-    local = None
-    if opts.local_tables and ch.bool(1, 6):
-        local = ch.choice(LOCAL_CHOICES)
+    if fixed is not None:
+        mv, local = fixed[0], fixed[1]
+    else:
+        mv = ch.choice(versions)
+        local = None
+        if opts.local_tables and ch.bool(1, 6):
+            local = ch.choice(LOCAL_CHOICES)
     edition = ch.choice(opts.editions)
     meta = gen_meta(ch, edition, mv, local)
+    if fixed is not None and local is None:
+        meta['originating_centre'] = meta['originating_subcentre'] = 0
     pl = gpool.pool_for(mv, meta['originating_centre'] if local else 0,
                         meta['originating_subcentre'] if local else 0,
                         meta['local_table_version'])
-    ids, tfeat = gtemplates.gen_template(ch, pl, opts.template)
+    if fixed is not None:
+        ids, tfeat = list(fixed[2]), set()
+    else:
+        ids, tfeat = gtemplates.gen_template(ch, pl, opts.template)
     compressed = opts.compressed if opts.compressed is not None else ch.bool(2, 5)
     nsub = ch.int(opts.min_subsets, opts.max_subsets)
     meta['n_subsets'] = nsub
